@@ -279,7 +279,8 @@ PROPS = {
                       "got an answer - success, parser error, plan error - or after a successful ping; untouched otherwise) and demands that the schedule and protocol state announced with every result carry them, "
                       "that the policy is always shown them, and that right after the result the time (microseconds), the poll interval, the count and the apps are written and committed before anything else; "
                       "(2) storage written by Context::persist loads back to exactly the persisted count, poll interval and last-contact time at microsecond precision, never a mixture "
-                      "(C08_rebuilt_state_is_last_persisted, C08_time_precision); the counter saturates.  Model tied to the code by trace equality on scripted runs (storage operations with success flags, "
+                      "(C08_rebuilt_state_is_last_persisted, C08_time_precision); the counter saturates; (3) C08_a_running_check_writes_only_what_was_announced: the monitor step8m - while a check is under way, every write to the "
+                      "last-contact-time key and the failure-count key carries the value last announced, so a commit in the middle of a check (a changed poll interval is persisted at once) never stores values of the running check.  Model tied to the code by trace equality on scripted runs (storage operations with success flags, "
                       "clock readings, policy arguments, schedule/protocol/result/state events); the monitor also runs on every implementation trace.",
         "level_note": "Proved for the model, unbounded.  Crash consistency is composed of three parts: the monitor (each commit of a finished check carries exactly the machine's values, one commit per block - on model "
                       "traces by theorem, on implementation traces at run time); atomic commit, which is the Storage trait's contract (trusted base; the harness's storage keeps a pending and a committed view); and the "
